@@ -154,6 +154,10 @@ type c23Flow struct {
 	noise  int // per-mille probability scale of anomalies
 	ece    bool
 	sent   int
+	// byte-cap runs: no spontaneous events, and one packet (number tailAt, 1-based) carries tailLen payload bytes
+	plain   bool
+	tailAt  int
+	tailLen int
 }
 
 var c23MSS = []int{1, 2, 7, 100, 536, 1200, 1400, 1448, 1460, 4000, 8948}
@@ -236,6 +240,10 @@ func (f *c23Flow) next(rng *rand.Rand) ([]byte, string) {
 		s.ID = f.id
 	}
 	plen := f.mss
+	if f.plain && f.sent == f.tailAt {
+		plen = f.tailLen
+		note("cap-tail")
+	}
 	switch s.Proto {
 	case verifpkt.ProtoTCP:
 		if f.ece {
@@ -248,11 +256,11 @@ func (f *c23Flow) next(rng *rand.Rand) ([]byte, string) {
 		case hit(30):
 			plen = f.mss + 1 + rng.IntN(f.mss+8)
 			note("long")
-		case hit(90) || rng.IntN(25) == 0:
+		case hit(90) || (!f.plain && rng.IntN(25) == 0):
 			plen = 0
 			note("pure-ack")
 		}
-		if hit(80) || rng.IntN(40) == 0 {
+		if hit(80) || (!f.plain && rng.IntN(40) == 0) {
 			s.Flags |= verifpkt.PSH
 			note("psh")
 		}
@@ -327,7 +335,7 @@ func (f *c23Flow) next(rng *rand.Rand) ([]byte, string) {
 			plen = 0
 			note("empty")
 		}
-		if !s.V6 && (hit(30) || f.noise == 0 && rng.IntN(30) == 0) {
+		if !s.V6 && (hit(30) || f.noise == 0 && !f.plain && rng.IntN(30) == 0) {
 			s.L4Csum = 1
 			note("udp-nocsum")
 		}
@@ -449,6 +457,36 @@ func c23GenBatch(rng *rand.Rand) (ins []*c23In, arrival []int, shape string) {
 	for i := range flows {
 		flows[i] = c23NewFlow(rng)
 	}
+	capRun := rng.IntN(8) == 0
+	if capRun {
+		// byte-cap run: one quiet TCP or UDP flow whose in-order run of full segments plus one shorter packet adds up to
+		// just below, exactly at, or just above the 65535-byte superpacket limit (IPv4 and IPv6), followed by more segments
+		nFlows = 1
+		f := c23NewFlow(rng)
+		for f.t.Proto != verifpkt.ProtoTCP && f.t.Proto != verifpkt.ProtoUDP {
+			f = c23NewFlow(rng)
+		}
+		f.noise, f.ece, f.idMode, f.plain = 0, false, 0, true
+		f.mss = []int{1191, 1240, 1310, 1400, 1424, 1448}[rng.IntN(6)]
+		hdr := 20
+		if f.t.V6 {
+			hdr = 40
+		}
+		if f.t.Proto == verifpkt.ProtoTCP {
+			hdr += 20 + len(f.t.TCPOptions)
+		} else {
+			hdr += 8
+		}
+		full := (65535 - hdr) / f.mss // full segments that fit under the limit
+		k := full - rng.IntN(2)       // full segments before the tail
+		target := 65535 + []int{-41, -40, -1, 0, 1, 20, 39, 40, 41, 60}[rng.IntN(10)]
+		f.tailAt, f.tailLen = k+1, target-hdr-k*f.mss
+		if f.tailLen < 1 || f.tailLen > f.mss {
+			f.tailAt = 0
+		}
+		flows = []*c23Flow{f}
+		n = k + 1 + rng.IntN(12)
+	}
 	burst := []int{0, 50, 70, 90, 97}[rng.IntN(5)] // percent chance to stay on the same flow
 	epochBase := uint64(rng.IntN(5))
 	cut := -1
@@ -485,6 +523,9 @@ func c23GenBatch(rng *rand.Rand) (ins []*c23In, arrival []int, shape string) {
 		arrival[i] = i
 	}
 	mode := rng.IntN(20)
+	if capRun && mode >= 2 {
+		mode = 0
+	}
 	switch {
 	case mode < 9:
 		shape = "in-order"
